@@ -369,7 +369,25 @@ class Ring:
                 if not known:
                     self._install_relations(name, x, at, key)
             elif op == "ite":
-                memo[x.id] = Rat(p_atom(self.atom(("ite", x.id), x)), {})
+                c, a, b = x.args
+                if c.op == "le" and c.args[0] is E.ZERO and c.args[1] is a and b is E.neg(a):
+                    # |a|: one atom per normal form of a up to a positive constant factor and sign
+                    if a.id not in memo:
+                        stack.append(a)
+                        continue
+                    ra = memo[a.id]
+                    cv = self._const_of(ra)
+                    if cv is not None:
+                        memo[x.id] = Rat(p_const(abs(cv)), {})
+                    elif not ra.den:
+                        lead = ra.num[max(ra.num, key=_lexkey)]
+                        monic = p_scale(ra.num, 1 / lead)
+                        at = self.atom(("abs", p_key(monic)), x)
+                        memo[x.id] = Rat(p_scale(p_atom(at), abs(lead)), {})
+                    else:
+                        memo[x.id] = Rat(p_atom(self.atom(("abs", self.key(ra)), x)), {})
+                else:
+                    memo[x.id] = Rat(p_atom(self.atom(("ite", x.id), x)), {})
             else:
                 raise E.Unsupported(f"ring: {op} in arithmetic position")
             stack.pop()
@@ -389,8 +407,7 @@ class Ring:
 
     def memo_clear_keep_atoms(self):
         # relations changed: cached products may contain unreduced squares
-        keep = {}
-        self.memo = keep
+        self.memo.clear()  # in place: normal() holds a reference while it runs and re-derives what it still needs
 
     def key(self, r: Rat):
         return (p_key(r.num), tuple(sorted(r.den.items())))
